@@ -50,15 +50,20 @@ def plan(tier):
     parts = [f"0:{c},1:{n}" for c in range(5) for n in range(3 if tier == "quick" else 4)]
     if tier == "quick":
         parts = [f"0:{c},1:{n}" for c in range(5) for n in range(2)] + [f"0:{c},1:2,2:{k}" for c in range(5) for k in range(4)]
+    else:  # 4-parameter signatures are split on kind and default of the first parameter (impossible combinations are empty partitions)
+        parts = [f"0:{c},1:{n}" for c in range(5) for n in range(3)] + \
+                [f"0:{c},1:3,2:{k},4:{d}" for c in range(5) for k in range(5) for d in range(10)]  # first parameter: kind x default
     return [
         K("k_kind", "kjobs.c06", "argument_kind", "argument kind truth table"),
         K("conformance", "harness.c06", "conformance_job", "shim builders vs real mypy", timeout=900),
         CH("analyser", "harness.c06", "analyser", parts, timeout=t, desc="_parse_parameter_data vs Python signature",
-           symbolic="signature shape selectors", stubs=["mypy node classes -> validated shim", "plaintext docstring parser"]),
+           symbolic="signature shape selectors", stubs=["mypy node classes -> validated shim", "plaintext docstring parser"],
+           allow_empty=tier == "thorough"),
         CH("analyser_value", "harness.c06", "analyser_value", [""], timeout=t, desc="integer default stays symbolic (0..99)",
            symbolic="integer default value", stubs=["mypy node classes -> validated shim"]),
         CH("render", "harness.c06", "render", [f"0:{k}" for k in range(5)], timeout=t, desc="default rendering per kind"),
         CH("render_value", "harness.c06", "render_value", [""], timeout=t, desc="integer default rendering, symbolic (-99..99)",
            symbolic="integer default value"),
-        CH("rendered_list", "harness.c06", "rendered_list", parts, timeout=t, desc="stub parameter list = model list minus receiver"),
+        CH("rendered_list", "harness.c06", "rendered_list", parts, timeout=t, desc="stub parameter list = model list minus receiver",
+           allow_empty=tier == "thorough"),
     ]
